@@ -409,7 +409,7 @@ EbErrorType dec_system_resource_init(EbDecHandle *dec_handle_ptr, TilesInfo *til
             dec_handle_ptr->thread_ctxt_pa[i].dec_mod_ctxt = dec_mod_ctxt_arr[i];
         }
     }
-    free(dec_mod_ctxt_arr);
+    // dec_mod_ctxt_arr is registered in the decoder memory map (EB_MALLOC_DEC): svt_av1_dec_deinit releases it
     return return_error;
 }
 
